@@ -469,6 +469,13 @@ func (p *Path) callBuiltin(th *Thread, fr *Frame, b *ssa.Builtin, args []Value, 
 		s := p.asStr(args[0])
 		sl := p.newByteSlice(p.strBytes(s), nil)
 		return sl.arr.child(0), true
+	case "Sizeof", "Alignof":
+		sz := types.SizesFor("gc", "amd64")
+		t := c.Args[0].Type()
+		if b.Name() == "Alignof" {
+			return tc.BV(uint64(sz.Alignof(t)), 64), true
+		}
+		return tc.BV(uint64(sz.Sizeof(t)), 64), true
 	case "Slice": // unsafe.Slice(ptr, len)
 		ptr := p.asPtr(args[0])
 		n := p.asTerm(args[1])
